@@ -260,11 +260,12 @@ Synced(r, hadDel, hadCre) ==
               !.conds["PodDeletion"]  = IF hadDel THEN UpdCond(@, TRUE, TRUE) ELSE @,
               !.conds["PodCreation"]  = IF hadCre THEN UpdCond(@, TRUE, TRUE) ELSE @]
 
-ERSReconcile(i) ==
+\* `all': the back-off lets every failed pod be deleted now (it eventually does: used for fairness only)
+ERSRec(i, all) ==
     /\ rv[i].exists /\ ed.defaulted
     /\ LET s == S  r == RSOf(s, i)  d == AbsEDSOf(ed)  role == Role(d, r)  F == Strat.frequency IN
        /\ GateOpen(r.conds.LastFullSync, F)    \* with the gate closed the reconcile returns at once: a stuttering step
-       /\ \E FD \in SUBSET FailedCandidates(s, d, r, role) :
+       /\ \E FD \in (IF all THEN {FailedCandidates(s, d, r, role)} ELSE SUBSET FailedCandidates(s, d, r, role)) :
           \E kept \in KeptChoices(s, d, r, role, FD) :
             LET clean == CleanUp(s, d, r, role, FD, kept) IN
             CASE role = "active" ->
@@ -310,6 +311,8 @@ ERSReconcile(i) ==
                                            !.ignored = k.ignored,
                                            !.conds["Canary"] = UpdCond(@, FALSE, FALSE), !.conds["Active"] = UpdCond(@, FALSE, FALSE)]
                    IN DoERS(i, {}, {}, {}, {}, Synced(r1, FALSE, FALSE))
+
+ERSReconcile(i) == ERSRec(i, FALSE)
 
 -----------------------------------------------------------------------------
 (* environment: kubelet *)
@@ -531,7 +534,8 @@ HalfDoneIsVisible == (pend = <<>> /\ ed.defaulted /\ ed.state = "Canary Failed" 
 (* bounding is done by budgets inside the actions, not by a state constraint, so no constraint can hide a           *)
 (* non-progress cycle.                                                                                              *)
 Fair == /\ WF_vars(Atomic(pend = <<>> /\ EDSReconcile))
-        /\ \A i \in DOMAIN TmplSeq : WF_vars(Atomic(ERSReconcile(i)))
+        /\ \A i \in DOMAIN TmplSeq : SF_vars(Atomic(ERSRec(i, TRUE)))   \* syncs keep coming (the frequency gate closes after each one,
+                                                                                \* hence strong fairness) and the back-off eventually expires
         /\ \A n \in NodeIds : \A k \in 1..MaxPerNode : WF_vars(Atomic(KReady(n, k))) /\ WF_vars(Atomic(KFinish(n, k)))
         /\ WF_vars(Atomic(Tick))
 LiveSpec       == Init /\ [][Next]_vars /\ Fair
